@@ -3,6 +3,7 @@
 -/
 import TrashVerif.Driver.World
 import TrashVerif.Spec.PutSpecs
+import TrashVerif.Spec.ReadSpecs
 open Lean TrashVerif
 
 namespace Oracle
@@ -30,6 +31,17 @@ def boolOf (j : Json) (k : String) : Bool := ((j.getObjValAs? Bool k).toOption).
 
 def verdict {α} [Repr α] (ok : Bool) (v : α) : Json :=
   Json.mkObj [("ok", ok), ("verdict", (reprStr v).replace "TrashVerif." "")]
+
+def slotsOf (j : Json) : Except String (List Effects.Slot) :=
+  (arrOf j "slots").mapM fun s => do
+    let e ← s.getObjValAs? String "expect"
+    let ex : Effects.Expect ← match e with
+      | "kept" => pure Effects.Expect.kept
+      | "purged" => pure .purged
+      | "any" => pure .any
+      | "restored" => do pure (.restored (cpathOf (← hexField s "dest")))
+      | x => throw s!"bad expect {x}"
+    pure ({ t := cpathOf (← hexField s "t"), n := ← hexField s "n", expect := ex } : Effects.Slot)
 
 def handle (j : Json) : Except String Json := do
   let prop ← j.getObjValAs? String "prop"
@@ -73,6 +85,19 @@ def handle (j : Json) : Except String Json := do
   | "C08" => do
     let ok := C08.check before after (← cpathList j "roots") (boolOf j "mentions")
     pure (Json.mkObj [("ok", ok), ("verdict", if ok then "ok" else "insecure-dir-used")])
+  | "effects" => do
+    let slots ← slotsOf j
+    let v := Effects.check before after (← cpathList j "dirs") slots
+    pure (verdict (v == .ok) v)
+  | "crash15" => do
+    let v := Effects.crashCheck before after (← slotsOf j)
+    pure (verdict (v == .ok) v)
+  | "bag" => do
+    let dirs ← (arrOf j "dirsWithBase").mapM fun d => do pure (cpathOf (← hexField d "dir"), ← hexField d "base")
+    let lines ← hexList j "lines"
+    let bag := Effects.bagLines after dirs
+    pure (Json.mkObj [("ok", Effects.sameMultiset bag lines), ("verdict", if Effects.sameMultiset bag lines then "ok" else "listing-differs-from-bag"),
+                      ("bag", Json.arr (bag.map fun l => Json.str (Bytes.toHex l)).toArray)])
   | p => throw s!"no oracle for {p}"
 
 end Oracle
